@@ -218,6 +218,32 @@ pub const VOP_NAMES: [&str; NVOPS as usize] = [
     "into_boxed_slice", "from_iter", "read_api", "drop_slot", "new_vec", "bytes_ops", "sibling_growth", "shrink_to_fit", "dedup_by",
 ];
 
+/// an iterator whose size_hint is not to be trusted (the trait is safe; hints may be loose or plainly wrong)
+pub struct Hinted<I> {
+    pub it: I,
+    pub lo: usize,
+    pub hi: Option<usize>,
+}
+impl<I: Iterator> Iterator for Hinted<I> {
+    type Item = I::Item;
+    fn next(&mut self) -> Option<I::Item> {
+        self.it.next()
+    }
+    fn size_hint(&self) -> (usize, Option<usize>) {
+        (self.lo, self.hi)
+    }
+}
+/// hint modes for an iterator of `n` items: exact, loose, lower bound too high, no information, upper bound too low
+pub fn hint_for(mode: u8, n: usize) -> (usize, Option<usize>) {
+    match mode % 5 {
+        0 => (n, Some(n)),
+        1 => (0, Some(n + 40)),
+        2 => (n + 3, None),
+        3 => (0, None),
+        _ => (n.saturating_sub(2), Some(n.saturating_sub(1))),
+    }
+}
+
 pub enum After<'b> {
     Keep,
     /// the slot was consumed
@@ -279,11 +305,15 @@ pub fn vec_op<'b, P: Pair>(ctx: &mut Ctx, bump: &'b Bump, v: &mut VSlot<'b, P::A
             let xs: Vec<u32> = (0..k).map(|j| ctx.next_val(c.wrapping_add(j as u8 * 5))).collect();
             let inexact = b & 1 == 1;
             let xs2 = xs.clone();
+            let (lo, hi) = hint_for(b >> 1, k);
+            let lying = b & 0x60 == 0x60;
             ctx.both(
-                "extend",
+                &format!("extend({k} items, size_hint ({lo}, {hi:?}){})", if lying { " as reported by the iterator" } else { "" }),
                 || {
                     let it = xs.iter().map(|&x| P::A::make(x));
-                    if inexact {
+                    if lying {
+                        s.extend(Hinted { it, lo, hi })
+                    } else if inexact {
                         s.extend(it.filter(|_| true))
                     } else {
                         s.extend(it)
@@ -291,7 +321,9 @@ pub fn vec_op<'b, P: Pair>(ctx: &mut Ctx, bump: &'b Bump, v: &mut VSlot<'b, P::A
                 },
                 || {
                     let it = xs2.iter().map(|&x| P::B::make(x));
-                    if inexact {
+                    if lying {
+                        t.extend(Hinted { it, lo, hi })
+                    } else if inexact {
                         t.extend(it.filter(|_| true))
                     } else {
                         t.extend(it)
@@ -408,13 +440,17 @@ pub fn vec_op<'b, P: Pair>(ctx: &mut Ctx, bump: &'b Bump, v: &mut VSlot<'b, P::A
             let xs: Vec<u32> = (0..k).map(|j| (c as u32 + 3 * j as u32) % 12).collect();
             let xs2 = xs.clone();
             let inexact = c & 0x20 != 0;
-            let name = format!("splice({:?}, {k} new{}) on len {len}, take {take}", range, if inexact { ", inexact size hint" } else { "" });
+            let lying = c & 0x0C == 0x0C;
+            let (hlo, hhi) = hint_for(a >> 3, k);
+            let name = format!("splice({:?}, {k} new{}) on len {len}, take {take}", range, if lying { format!(", size hint ({hlo}, {hhi:?}) as reported by the iterator") } else if inexact { ", inexact size hint".to_string() } else { String::new() });
             ctx.both(
                 &name,
                 || {
                     let it: Box<dyn Iterator<Item = P::A>> = {
                         let _u = ledger::enter_user();
-                        if inexact {
+                        if lying {
+                            Box::new(Hinted { it: xs.into_iter().map(|x| P::A::make(x)), lo: hlo, hi: hhi })
+                        } else if inexact {
                             Box::new(xs.into_iter().map(|x| P::A::make(x)).filter(|_| true))
                         } else {
                             Box::new(xs.into_iter().map(|x| P::A::make(x)))
@@ -440,7 +476,7 @@ pub fn vec_op<'b, P: Pair>(ctx: &mut Ctx, bump: &'b Bump, v: &mut VSlot<'b, P::A
                     got
                 },
                 || {
-                    let it: Box<dyn Iterator<Item = P::B>> = if inexact { Box::new(xs2.into_iter().map(|x| P::B::make(x)).filter(|_| true)) } else { Box::new(xs2.into_iter().map(|x| P::B::make(x))) };
+                    let it: Box<dyn Iterator<Item = P::B>> = if lying { Box::new(Hinted { it: xs2.into_iter().map(|x| P::B::make(x)), lo: hlo, hi: hhi }) } else if inexact { Box::new(xs2.into_iter().map(|x| P::B::make(x)).filter(|_| true)) } else { Box::new(xs2.into_iter().map(|x| P::B::make(x))) };
                     let mut sp = t.splice(range, it);
                     let mut got = Vec::with_capacity(8);
                     for _ in 0..take {
@@ -812,6 +848,11 @@ pub fn vec_op<'b, P: Pair>(ctx: &mut Ctx, bump: &'b Bump, v: &mut VSlot<'b, P::A
         ctx.st(V::Reallocs);
     }
     v.check_promise(ctx, VOP_NAMES.get(code as usize).copied().unwrap_or("an operation"));
+    // like std's, the vector never gives capacity back on its own: only shrink_to_fit lowers it (C18: room the vector
+    // has is usable later without moving)
+    if code != 28 && std::mem::size_of::<P::A>() > 0 && v.s.capacity() < cap_before {
+        ctx.v("C18", format!("{} lowered the capacity from {cap_before} to {} without shrink_to_fit", VOP_NAMES.get(code as usize).copied().unwrap_or("an operation"), v.s.capacity()));
+    }
     after
 }
 
